@@ -192,8 +192,8 @@ def _task(X):
                     out['util_encoding'].add((e2.data['callee'].name, 'same' if same else
                                               'other:%s' % (concrete(a_) if is_concrete(a_) else getattr(a_, 'name', '?'),)))
         # indentation stripping: regex sub events inside the content function
-        subs = [e for e in evs if e.kind == 'regex-apply' and e.data['mode'] == 'sub' and e.fi is cf]
-        decs = [e for e in evs if e.kind == 'decode' and e.fi is cf]
+        subs = [e for e in evs if e.kind == 'regex-apply' and e.data['mode'] == 'sub' and cf in e.stack]
+        decs = [e for e in evs if e.kind == 'decode' and cf in e.stack]
         for e in subs:
             d = e.data['data']
             # does the data derive from the lines of the newline split?
